@@ -25,7 +25,11 @@ func (Engine) Generate(r *core.Rng, property, tier string) *core.Plan {
 		}
 		p.SetKnob("saveCheckpoints", 1)
 		p.SetKnob("viaManager", 1)
-		switch r.Pick(20, 50, 30) {
+		long := 6 // restore-from-file histories are ~1450 blocks: few in the quick tier
+		if tier == "thorough" {
+			long = 30
+		}
+		switch r.Pick(long, 60, 34) {
 		case 0:
 			p.Meta["profile"] = "restart-from-file"
 			g.restartLong()
@@ -59,6 +63,7 @@ type gen struct {
 	h    int // expected chain height after the steps generated so far
 
 	vs, vp, cs, duty int
+	v2, claim2       int // DPoS v2 start height (0 = never) and its claim period
 
 	follow [][]TxD // follow[i]: intents to add to the i-th next block
 }
@@ -109,7 +114,16 @@ func (g *gen) knobs() {
 		}
 		return math.MaxUint32
 	}
-	p.SetKnob("didHeight", three())
+	// candidates registered without a DID (payload v0) can never be elected, so
+	// RegisterCRByDIDHeight is mostly at or near the start of the CR era
+	switch r.Pick(70, 22, 8) {
+	case 0:
+		p.SetKnob("didHeight", 0)
+	case 1:
+		p.SetKnob("didHeight", int64(g.vs+r.Range(1, 5)))
+	default:
+		p.SetKnob("didHeight", math.MaxUint32)
+	}
 	p.SetKnob("withdrawV1Height", three())
 	p.SetKnob("draftDataHeight", three())
 	if r.Bool(0.25) {
@@ -132,6 +146,14 @@ func (g *gen) knobs() {
 	p.SetKnob("stepwiseRollback", int64(r.Pick(1, 2)))
 	p.SetKnob("assetsSeed", []int64{0, 1000, 1000000, 1000000}[r.Intn(4)])
 	p.SetKnob("quietFirstBlock", int64(r.Intn(2)))
+	// DPoS v2 era of the committee (Voting payloads, next members, claim period)
+	// starts in the middle of the first term in 40% of the plans
+	g.claim2 = r.Range(2, 4)
+	p.SetKnob("claimPeriodV2", int64(g.claim2))
+	if r.Bool(0.4) {
+		g.v2 = g.cs + r.Range(3, g.duty-g.vp-g.claim2-6)
+		p.SetKnob("dposV2Start", int64(g.v2))
+	}
 	p.SetKnob("customIDHeight", 0)
 	p.SetKnob("sideChainHeight", 0)
 }
@@ -146,7 +168,19 @@ func (g *gen) inVoting(h int) bool {
 		return true
 	}
 	off := (h - g.cs) % g.duty
+	if g.v2 > 0 && h >= g.v2 {
+		return off >= g.duty-g.vp-g.claim2 && off < g.duty-g.claim2
+	}
 	return off >= g.duty-g.vp
+}
+
+// inClaimV2: between the end of a v2-era voting period and the committee change.
+func (g *gen) inClaimV2(h int) bool {
+	if g.v2 == 0 || h < g.v2 || h < g.cs {
+		return false
+	}
+	off := (h - g.cs) % g.duty
+	return off >= g.duty-g.claim2
 }
 
 func (g *gen) txd() TxD {
@@ -157,7 +191,7 @@ func (g *gen) txd() TxD {
 func (g *gen) votingIntent() TxD {
 	r := g.r
 	d := g.txd()
-	switch r.Pick(30, 32, 8, 6, 4, 3, 5, 4, 3) {
+	switch r.Pick(30, 34, 8, 3, 4, 3, 5, 4, 3) {
 	case 0:
 		d.K, d.F = "reg", r.Pick(70, 10, 10, 10)*4+r.Intn(3)
 		if r.Bool(0.1) {
@@ -259,6 +293,14 @@ func (g *gen) block() Step {
 			st.Txs = append(st.Txs, TxD{K: "claim", A: i, B: i + r.Intn(2)})
 		}
 	}
+	if g.inClaimV2(g.h+1) && r.Bool(0.7) {
+		// elected-next members claim their nodes before taking office
+		for i := 0; i < int(g.p.Knob("members", 3)); i++ {
+			if r.Bool(0.8) {
+				st.Txs = append(st.Txs, TxD{K: "claim", A: i, B: i + 3 + r.Intn(2), F: 1})
+			}
+		}
+	}
 	n := r.Pick(22, 34, 24, 13, 7)
 	for i := 0; i < n; i++ {
 		if g.inVoting(g.h + 1) {
@@ -286,6 +328,13 @@ func (g *gen) block() Step {
 	if r.Bool(0.06) {
 		st.F = 1
 	}
+	if g.v2 > 0 && g.h+1 >= g.v2 {
+		for i := range st.Txs {
+			if st.Txs[i].K == "vote" && r.Bool(0.7) {
+				st.Txs[i].F |= 32
+			}
+		}
+	}
 	g.h++
 	return st
 }
@@ -302,6 +351,9 @@ func (g *gen) rollbackStep() Step {
 		d = r.Range(4, 8)
 	default:
 		d = r.Range(9, 20)
+		if g.tier == "thorough" && r.Bool(0.3) {
+			d = r.Range(20, 200) // clipped to the history below
+		}
 	}
 	if d > g.h-g.vs-1 {
 		d = g.h - g.vs - 1
@@ -322,12 +374,16 @@ func (g *gen) rollbackStep() Step {
 func (g *gen) bootstrap() {
 	r, p := g.r, g.p
 	ncand := int(p.Knob("ncand", 5))
-	for g.h < g.vs-1 {
+	first := g.vs - 1
+	if p.Knob("quietFirstBlock", 0) == 1 {
+		first = g.vs // the block at CRVotingStartHeight stays empty
+	}
+	for g.h < first {
 		p.Add(Step{Op: "block"})
 		g.h++
 	}
 	perm := r.Perm(ncand)
-	k := r.Range(int(p.Knob("members", 3)), ncand)
+	k := r.Range(min(int(p.Knob("members", 3))+1, ncand), ncand)
 	st := Step{Op: "block"}
 	for i := 0; i < k; i++ {
 		st.Txs = append(st.Txs, TxD{K: "reg", A: perm[i], B: r.Intn(8), F: r.Intn(3)})
@@ -345,7 +401,8 @@ func (g *gen) bootstrap() {
 	}
 	st = Step{Op: "block"}
 	for v := 0; v < 3; v++ {
-		st.Txs = append(st.Txs, TxD{K: "vote", A: v, B: r.Intn(16), C: 2, F: 1, V: []int64{0, 30000 * ela}[r.Intn(2)]})
+		// disjoint triples of candidates, so that enough of them have votes
+		st.Txs = append(st.Txs, TxD{K: "vote", A: v, B: 3 * v, C: 2, F: 1, V: []int64{0, 30000 * ela}[r.Intn(2)]})
 	}
 	p.Add(st)
 	g.h++
@@ -384,7 +441,7 @@ func (g *gen) workload(restart, rollbacks, ckpt bool) {
 			p.Add(g.rollbackStep())
 			faults++
 		}
-		if restart && g.h > g.vs+2 && r.Bool(0.03) {
+		if restart && g.h > g.vs+2 && (r.Bool(0.03) || near && r.Bool(0.3)) {
 			p.Add(Step{Op: "restart", F: r.Intn(4)})
 			faults++
 		}
@@ -418,6 +475,10 @@ func (g *gen) restartLong() {
 	// across the save height
 	g.duty = r.Range(800, 1600)
 	p.SetKnob("dutyPeriod", int64(g.duty))
+	if g.v2 > 0 {
+		g.v2 = g.cs + r.Range(3, 600)
+		p.SetKnob("dposV2Start", int64(g.v2))
+	}
 	for _, k := range []string{"didHeight", "withdrawV1Height", "draftDataHeight"} {
 		if v := p.Knob(k, 0); v != 0 && v != math.MaxUint32 {
 			p.SetKnob(k, int64(g.cs+r.Range(4, 60)))
